@@ -325,14 +325,16 @@ class BinaryCLT(Leaf):
 
         # Sample the root feature
         mask = mis_mask[:, self.root]
-        log_probs = self.params[self.root, 0, 1] + messages[self.root, mask, 1]
+        log_probs = self.params[self.root, 0] + messages[self.root, mask]
+        log_probs = log_probs[:, 1] - logsumexp(log_probs, axis=1)
         x[mask, self.root] = ss.bernoulli.rvs(np.exp(log_probs))
 
         # Sample the other features, by using the accumulated messages
         for j in self.bfs[1:]:
             mask = mis_mask[:, j]
             obs_parent_values = x[mask, self.tree[j]].astype(np.int64)
-            log_probs = self.params[j, obs_parent_values, 1] + messages[j, mask, obs_parent_values]
+            log_probs = self.params[j, obs_parent_values] + messages[j, mask]
+            log_probs = log_probs[:, 1] - logsumexp(log_probs, axis=1)
             x[mask, j] = ss.bernoulli.rvs(np.exp(log_probs))
         return x
 
